@@ -19,12 +19,42 @@ struct Rec {
     out_n: usize,
 }
 
+/// An iterator whose `size_hint` is any answer the `Iterator` contract allows
+/// (`lo <= remaining <= hi`, or no upper bound), chosen by the solver per harness run.
+#[derive(Clone)]
+struct HintIter {
+    data: [u8; N],
+    pos: usize,
+    len: usize,
+    lo_slack: usize,
+    hi_slack: Option<usize>,
+}
+impl Iterator for HintIter {
+    type Item = u8;
+    fn next(&mut self) -> Option<u8> {
+        if self.pos < self.len {
+            self.pos += 1;
+            Some(self.data[self.pos - 1])
+        } else {
+            None
+        }
+    }
+    fn size_hint(&self) -> (usize, Option<usize>) {
+        let rem = self.len - self.pos;
+        (rem.saturating_sub(self.lo_slack), self.hi_slack.map(|h| rem + h))
+    }
+}
+
 fn run(items: &[u8], table: [u8; 4], want: [usize; N]) -> Rec {
+    run_iter(items.iter().copied(), table, want)
+}
+
+fn run_iter<I: Iterator<Item = u8> + Clone>(iter: I, table: [u8; 4], want: [usize; N]) -> Rec {
     let mut r = Rec { keys: [0; N], lens: [0; N], groups: 0, out: [0; N], out_group: [0; N], out_n: 0 };
     {
         let rp = &mut r as *mut Rec;
         verif_group_by(
-            items.iter().copied(),
+            iter,
             |x: &u8| table[(*x & 3) as usize],
             |k, len| unsafe {
                 let r = &mut *rp;
@@ -51,11 +81,25 @@ fn run(items: &[u8], table: [u8; 4], want: [usize; N]) -> Rec {
 
 /// Every group fully consumed (asking for more than `len` items: the group must stop by itself).
 pub fn c40_full(s: &mut Src) {
+    full(s, false)
+}
+/// Same obligations over an iterator type with arbitrary contract-conforming `size_hint`s.
+pub fn c40_full_any_size_hint(s: &mut Src) {
+    full(s, true)
+}
+
+fn full(s: &mut Src, custom: bool) {
     let items: [u8; N] = s.any_bytes::<N>();
     let n = s.any_usize();
     s.assume(n <= N);
     let table: [u8; 4] = s.any_bytes::<4>();
-    let r = run(&items[..n], table, [usize::MAX; N]);
+    let r = if custom {
+        let lo_slack = s.any_in(0, N);
+        let hi_slack = if s.any_bool() { Some(s.any_in(0, N)) } else { None };
+        run_iter(HintIter { data: items, pos: 0, len: n, lo_slack, hi_slack }, table, [usize::MAX; N])
+    } else {
+        run(&items[..n], table, [usize::MAX; N])
+    };
     chk!(s, "number of groups is at most the number of items", r.groups <= n);
     chk!(s, "groups concatenate to the input: same number of items", r.out_n == n);
     let mut i = 0;
@@ -153,5 +197,6 @@ pub fn c40_partial(s: &mut Src) {
 
 harnesses! {
     #[kani::unwind(8)] c40_full;
+    #[kani::unwind(8)] c40_full_any_size_hint; // timeout=900
     #[kani::unwind(8)] c40_partial;
 }
